@@ -65,6 +65,7 @@ pub enum KindChoice {
     Fixed(Kind),
     Slice,
     Swh,
+    SwhPod,
     /// any entry of the layout family
     Lay,
     /// entries of one class of the layout family: 0 sized, 1 slice/str, 2 slice-with-header
@@ -262,6 +263,7 @@ impl Gen {
             KindChoice::Fixed(k) => k,
             KindChoice::Slice => Kind::Slice { len: self.rng.below(7) as u8 },
             KindChoice::Swh => Kind::Swh { len: self.rng.below(6) as u8 },
+            KindChoice::SwhPod => Kind::SwhPod { len: self.rng.below(6) as u8 },
             KindChoice::Lay => self.lay_kind(None),
             KindChoice::LayClass(c) => self.lay_kind(Some(c)),
         }
@@ -306,7 +308,7 @@ impl Gen {
     fn route_for(&mut self, kind: Kind, storing_some: bool) -> Route {
         match kind {
             Kind::Node | Kind::Bag => [Route::Default, Route::WriteUnlock, Route::TryBorrowMut][self.rng.below(3)],
-            Kind::Cell => [Route::Default, Route::WriteUnlock][self.rng.below(2)],
+            Kind::Cell | Kind::CellP => [Route::Default, Route::WriteUnlock][self.rng.below(2)],
             Kind::Once => [Route::Default, Route::GetOrInit][self.rng.below(2)],
             Kind::Slice { .. } => [Route::Default, Route::ViaThin, Route::ViaRange][self.rng.below(3)],
             Kind::Swh { .. } => [Route::Default, Route::ViaThin][self.rng.below(2)],
